@@ -7,3 +7,6 @@ import Eliot.Properties.C02
 #print axioms Sys.C02.child_extends_parent
 #print axioms Sys.C02.reserved_position_unique
 #print axioms Sys.C02.message_at_slot
+#print axioms Sys.C02.offered_places_unique
+#print axioms Sys.C02.offered_at_handed_out_places
+#print axioms Sys.C02.buffered_at_handed_out_places
